@@ -173,6 +173,123 @@ def parallel_stage(ctx, thorough, protos=None, sflow_filter=None):
         ctx.traces_validated += 1
 
 
+SCHED_CFG = """SPECIFICATION Spec
+CONSTANTS
+ Workers = {1, 2}
+ Kinds <- %(kinds)s
+ QCap = 2
+ MaxLen = %(maxlen)d
+ EmitCases = TRUE
+ CountAtDec = %(cad)s
+INVARIANTS PublishedOnce OnlyData CountsExact HeldIsOwn Emit
+CHECK_DEADLOCK FALSE
+"""
+
+
+def sched_stage(ctx, thorough):
+    """binding A for the pipeline: every complete schedule of PipelineSched.tla (2 workers, 3 datagrams, moves feed /
+    step(w) / consume at the granularity of the worker hooks) is generated by TLC, a seeded sample of them is replayed
+    into the real workers through the gates, and the abstract state (hook each worker is parked at, datagram it holds,
+    queue lengths, what the producer took, decoded count) is compared after EVERY move"""
+    drv = ctx.go_build_test("vflow", ["vflow/pipeline_verif_test.go"])
+    fam = {}
+    for kinds, cad in (("K3", "TRUE"), ("K3b", "TRUE"), ("K3b", "FALSE")):
+        r = ctx.tlc_model("PipelineSchedMC", "s_%s.cfg" % kinds, want_cases=True, workers=8, timeout=900,
+                          files={"s_%s.cfg" % kinds: SCHED_CFG % dict(kinds=kinds, maxlen=14 if kinds == "K3" else 15, cad=cad)})
+        fam[kinds + cad] = r.cases
+    ctx.note("TLC generated %s complete pipeline schedules" % [len(v) for v in fam.values()])
+    per = 1500 if thorough else 120
+    jobs, meta = [], []
+    for proto in PROTOS:
+        rng = ctx.rng
+        kinds = "K3" if proto in ("ipfix", "netflow9") else "K3b"
+        order = {"K3": ["data", "tpl", "bad"], "K3b": ["bad", "data", "data"]}[kinds]
+        exp = [10, 0, 0, 1]
+        bad = {"ipfix": [0, 1] + [7] * 30, "netflow9": [0, 1] + [7] * 30, "netflow5": [0, 4, 0, 1] + [3] * 68, "sflow": [0, 0, 0, 4] + [9] * 40}[proto]
+        if proto in ("ipfix", "netflow9"):
+            from props import c04
+            gp = "ipfix" if proto == "ipfix" else "v9"
+            tpl = [{"exp": exp, "buf": c04.tpl_msg(gp, 256, 1)}, {"exp": exp, "buf": c04.tpl_msg(gp, 300, 2)}]
+            pool = {"data": [c04.data_msg(gp, 256)], "tpl": [c04.tpl_msg(gp, 300, 2)], "bad": [bad]}
+        elif proto == "netflow5":
+            tpl = []
+            mk = lambda k: [0, 5, 0, 1] + [k] * 20 + [(k * 7 + i) % 256 for i in range(48)]
+            pool = {"data": [mk(1), mk(2)], "bad": [bad]}
+        else:
+            tpl = []
+            g = gen_sflow.Gen(rng)
+            ds = []
+            while len(ds) < 2:
+                m, types = g.datagram(budget=500)
+                if any(x in (1, 2) for x in types) and m not in ds:
+                    ds.append(m)
+            pool = {"data": ds, "bad": [bad]}
+        data, used = [], {}
+        for k in order:
+            data.append({"exp": exp, "buf": pool[k][used.get(k, 0)]})
+            used[k] = used.get(k, 0) + 1
+        cases = fam[kinds + ("FALSE" if proto == "sflow" else "TRUE")]
+        pick = sorted(rng.sample(range(len(cases)), min(per, len(cases))))
+        for lo in range(0, len(pick), 60):
+            chunk = [cases[i] for i in pick[lo:lo + 60]]
+            jobs.append({"proto": proto, "workers": 2, "seed": ctx.seed, "udpsize": 1500, "templates": tpl, "data": data, "lazy": 1,
+                         "scheds": [c["sched"] for c in chunk]})
+            meta.append((proto, order, chunk))
+    for i, j in enumerate(jobs):
+        j["id"] = 700 + i
+    with concurrent.futures.ThreadPoolExecutor(max_workers=8) as ex:
+        results = list(ex.map(lambda j: run_job(ctx, drv, j, j["id"]), jobs))
+    nmoves = 0
+    for job, (proto, order, chunk), r in zip(jobs, meta, results):
+        if "crash" in r:
+            if r.get("timeout"):
+                raise vlib.Infra("schedule replay timed out: " + r["crash"][-800:])
+            why = next((l for l in r["crash"].split("\n") if l.startswith(("panic:", "fatal error:"))), None)
+            if why:
+                ctx.violation("%s pipeline: the worker process died while a TLC schedule was replayed: %s" % (proto, why), {"proto": proto, "log": r["crash"][-1500:]}, key=proto + ":died")
+                continue
+            raise vlib.Infra("schedule replay failed: " + r["crash"][-800:])
+        if r.get("problem"):
+            raise vlib.Infra("schedule replay: %s" % r["problem"])
+        # the datagrams are of the kinds the model assumes
+        cls = r["class"]
+        pub = [bool(x) for x in r["expected"]]
+        want_kind = [{"data": ("ok", True), "tpl": ("ok", False), "bad": ("no", False)}[k] for k in order]
+        if [(c if c != "err" else "ok", p) for c, p in zip(cls, pub)] != want_kind:
+            raise vlib.Infra("schedule replay: the job's datagrams are not of the kinds %s: %s" % (order, list(zip(cls, pub))))
+        for c, obs in zip(chunk, r.get("sched_obs") or []):
+            ctx.count([proto, "schedule", c["sched"]])
+            for k, (mo, ro) in enumerate(zip(c["obs"], obs)):
+                nmoves += 1
+                want = {"gates": list(mo["gates"]), "holds": list(mo["holds"]), "q": mo["q"], "mq": len(mo["mq"]), "consumed": list(mo["consumed"]), "decs": mo["decs"]}
+                got = {"gates": ro["gates"], "holds": ro["holds"], "q": ro["q"], "mq": ro["mq"], "consumed": ro.get("consumed") or [], "decs": ro["decs"]}
+                if want != got:
+                    diff = [x for x in want if want[x] != got[x]]
+                    ctx.violation("%s pipeline: replaying the TLC schedule %s (datagrams %s): after move %d (%s) the real workers are not where "
+                                  "PipelineSched.tla says: %s" % (proto, c["sched"], order, k + 1, c["sched"][k],
+                                                                  "; ".join("%s model %s real %s" % (x, want[x], got[x]) for x in diff)),
+                                  {"proto": proto, "sched": c["sched"], "move": k + 1, "model": want, "real": got}, key=proto + ":sched:" + diff[0])
+                    break
+            else:
+                ctx.traces_validated += 1
+                continue
+            break
+    # binding self-test: a schedule replayed with one move given to the other worker must NOT match the model's states
+    job0, (proto0, order0, chunk0) = jobs[0], meta[0]
+    c0 = next(c for c in chunk0 if "s1" in c["sched"] and "s2" in c["sched"])
+    k0 = c0["sched"].index("s1")
+    wrong = list(c0["sched"])
+    wrong[k0] = "s2" if c0["obs"][k0 - 1]["gates"][1] != "Top" or c0["obs"][k0 - 1]["q"] > 0 else "s1"
+    if wrong != c0["sched"]:
+        r0 = run_job(ctx, drv, dict(job0, id=799, scheds=[wrong]), 799)
+        same = not r0.get("problem") and "crash" not in r0 and all(
+            list(mo["gates"]) == ro["gates"] and list(mo["holds"]) == ro["holds"] for mo, ro in zip(c0["obs"], (r0.get("sched_obs") or [[]])[0]))
+        if same:
+            raise vlib.Infra("binding self-test failed: a schedule with a move given to the other worker matched the model's states")
+        ctx.binding_selftests.append({"corrupt": "schedule move %d given to the other worker" % (k0 + 1), "rejected": True})
+    ctx.extra["schedule_replay"] = {"schedules_generated": {k: len(v) for k, v in fam.items()}, "replayed_per_protocol": per, "moves_compared": nmoves}
+
+
 def check(ctx, want="C12"):
     thorough = ctx.tier == "thorough"
     mirror_only = want == "C16"     # C16: "mirroring never changes what is decoded and published" - the mirror part of this check
@@ -201,6 +318,7 @@ def check(ctx, want="C12"):
                       expect="NoUseAfterPut", workers=16)
     if want == "C12":
         parallel_stage(ctx, thorough)
+        sched_stage(ctx, thorough)
     if mirror_only:
         parallel_stage(ctx, thorough, protos=["ipfix", "sflow"])
     drv = ctx.go_build_test("vflow", ["vflow/pipeline_verif_test.go"])
